@@ -21,7 +21,7 @@ struct Entry { credit: bool, amount: Decimal, booking: u32, value: Option<u32>, 
 
 fn ind(credit: bool) -> &'static str { if credit { "CRDT" } else { "DBIT" } }
 
-fn xml(opening: Decimal, opening_credit: bool, closing: Decimal, closing_credit: bool, entries: &[Entry], closing_first: bool) -> String {
+fn xml(opening: Decimal, opening_credit: bool, closing: Decimal, closing_credit: bool, entries: &[Entry], closing_first: bool, dttm: bool) -> String {
     let mut s = String::from("<?xml version=\"1.0\" encoding=\"UTF-8\"?>\n<Document xmlns=\"urn:iso:std:iso:20022:tech:xsd:camt.053.001.04\">\n<BkToCstmrStmt>\n<Stmt>\n");
     let bal = |code: &str, v: Decimal, credit: bool| format!("<Bal><Tp><CdOrPrtry><Cd>{}</Cd></CdOrPrtry></Tp><Amt Ccy=\"CHF\">{}</Amt><CdtDbtInd>{}</CdtDbtInd><Dt><Dt>2024-03-01</Dt></Dt></Bal>\n", code, v, ind(credit));
     // the order of the balance records carries no meaning
@@ -33,9 +33,17 @@ fn xml(opening: Decimal, opening_credit: bool, closing: Decimal, closing_credit:
         s.push_str(&bal("CLBD", closing, closing_credit));
     }
     for (i, e) in entries.iter().enumerate() {
+        // dates as `<Dt>` or as `<DtTm>` with a UTC offset, minutes away from midnight: the date meant is the LOCAL one that is written (seed C18-l)
+        if dttm {
+            s.push_str(&format!("<Ntry><Amt Ccy=\"CHF\">{}</Amt><CdtDbtInd>{}</CdtDbtInd><Sts>BOOK</Sts><BookgDt><DtTm>2024-03-{:02}T00:30:00+01:00</DtTm></BookgDt>", e.amount, ind(e.credit), e.booking));
+            if let Some(v) = e.value {
+                s.push_str(&format!("<ValDt><DtTm>2024-03-{:02}T23:45:00-05:00</DtTm></ValDt>", v));
+            }
+        } else {
         s.push_str(&format!("<Ntry><Amt Ccy=\"CHF\">{}</Amt><CdtDbtInd>{}</CdtDbtInd><Sts>BOOK</Sts><BookgDt><Dt>2024-03-{:02}</Dt></BookgDt>", e.amount, ind(e.credit), e.booking));
         if let Some(v) = e.value {
             s.push_str(&format!("<ValDt><Dt>2024-03-{:02}</Dt></ValDt>", v));
+        }
         }
         s.push_str("<BkTxCd><Domn><Cd>PMNT</Cd><Fmly><Cd>RCDT</Cd><SubFmlyCd>OTHR</SubFmlyCd></Fmly></Domn></BkTxCd>");
         if !e.details.is_empty() {
@@ -74,12 +82,12 @@ pub fn run(_args: &[String]) -> i32 {
         (d("10"), vec![e(true, "5", 2, None, &["-1", "6"])]),
     ];
     for (opening, entries) in &scenarios {
-        for (new_to_old, closing_first) in [(false, false), (true, false), (false, true), (true, true)] {
+        for (new_to_old, closing_first, dttm) in [(false, false, false), (true, false, false), (false, true, false), (true, true, false), (false, false, true), (true, true, true)] {
             evaluated += 1;
             let mut closing = *opening;
             for en in entries { closing += if en.credit { en.amount } else { -en.amount }; }
             let xml_entries: Vec<Entry> = if new_to_old { entries.iter().rev().cloned().collect() } else { entries.clone() };
-            let doc = xml(opening.abs(), !opening.is_sign_negative(), closing.abs(), !closing.is_sign_negative(), &xml_entries, closing_first);
+            let doc = xml(opening.abs(), !opening.is_sign_negative(), closing.abs(), !closing.is_sign_negative(), &xml_entries, closing_first, dttm);
             let mut yaml = String::from("path: s.xml\nencoding: UTF-8\naccount: Assets:Bank\naccount_type: asset\noperator: The Bank\ncommodity: CHF\n");
             if new_to_old { yaml.push_str("format:\n  row_order: new_to_old\n"); }
             yaml.push_str("rewrite:\n  - matcher:\n      additional_entry_info: \"entry (?P<payee>.*)\"\n    account: Income:Other\n");
